@@ -119,6 +119,9 @@ pub struct GenParams {
     /// storage, so a pre-Cancun destroy + re-create masks backing storage. Reads of the child's
     /// slots therefore resolve against a storage-reset marker published inside the block.
     pub reborn_contract: bool,
+    /// constructors of top-level create transactions often call back the transaction origin (a
+    /// delegated sender then runs its delegate's code, in its own context, inside a create tx)
+    pub ctor_calls_origin: bool,
 }
 
 pub const CREATE2_SPECS: &[SpecId] = &[
@@ -160,6 +163,7 @@ impl Default for GenParams {
             destroy_flip_contract: false,
             refunder_contract: false,
             reborn_contract: false,
+            ctor_calls_origin: false,
         }
     }
 }
@@ -683,7 +687,11 @@ pub fn generate(p: &GenParams, seed: u64) -> Case {
                 tx.gas_limit = if r.chance(1, 2) { 21_000 } else { 100_000 };
             }
             2 if !is_auth => {
-                let blob = progs::gen_init(&mut r, &mix, spec);
+                let mut blob = progs::gen_init(&mut r, &mix, spec);
+                if p.ctor_calls_origin && r.chance(2, 3) {
+                    blob.ctor.insert(0, Stmt::Origin(6));
+                    blob.ctor.insert(1, Stmt::Call { kind: progs::CallKind::Call, a: 6, raw: true, v: 7, vmax: 1, ds: 5, dr: 4 });
+                }
                 tx.kind = TxKind::Create;
                 tx.data = progs::compile_init(&blob, layout.table).into();
                 tx.gas_limit = 1_000_000;
